@@ -15,7 +15,7 @@ from vlib.core import Check, MachineryError, run_tlc
 CFG = """CONSTANTS MaxLen = {maxlen}
  Losses = {losses}
  Ps = {{1, 2, 3, 4}}
- Atols = {{"0.0", "1.0"}}
+ Atols = {{"0.0", "0.5", "1.0"}}
  Rtols = {{"0.0", "0.5"}}
 INIT Init
 NEXT Next
@@ -39,9 +39,9 @@ def run(chk: Check):
         if r.error != f"invariant:{inv}":
             raise MachineryError(f"vacuity gate {inv}")
     if chk.quick:
-        evs = D.stopper_events([0.0, 1.0, 2.0, 3.0], 4, [1, 2, 3, 4], [0.0, 1.0], [0.0, 0.5], modes=("jit", "eager"))
+        evs = D.stopper_events([0.0, 1.0, 2.0, 3.0], 4, [1, 2, 3, 4], [0.0, 0.5, 1.0], [0.0, 0.5], modes=("jit", "eager"))
     else:
-        evs = D.stopper_events([0.0, 1.0, 2.0, 3.0], 5, [1, 2, 3, 4], [0.0, 1.0], [0.0, 0.5], modes=("jit", "eager"))
+        evs = D.stopper_events([0.0, 1.0, 2.0, 3.0], 5, [1, 2, 3, 4], [0.0, 0.5, 1.0], [0.0, 0.5], modes=("jit", "eager"))
         evs += D.stopper_events([-1.0, 0.0, 2.5, float("nan")], 4, [1, 2, 3], [0.0, 1.0], [0.0, 0.5], modes=("jit",))
     traces = [{"hdr": {"kind": "stopper"}, "ev": evs[i:i + 4000]} for i in range(0, len(evs), 4000)]
     traces += parallel.run_jobs("harness.optim_driver", "one_run", D.run_jobs_list(chk.quick))
